@@ -86,6 +86,12 @@ def build_cases(rng, n_desc, gen_kwargs=None, values_per_stream=(2, 2, 1), decod
                 except TypeError:
                     continue
                 c.encs.append(dict(value=v, req=req, stream=stream, impl=cc.impl_encode(c.obj, v, req)))
+        if is_resp and need:
+            # triggering requests of every length up to the mirrored range (ending in front of, inside and behind it)
+            v = g.values_for_params(ps, "valid")
+            for ln in range(need + 2):
+                rq = bytes(rng.randrange(1, 256) for _ in range(ln))
+                c.encs.append(dict(value=v, req=rq, stream="request-length", impl=cc.impl_encode(c.obj, v, rq)))
         # decode inputs: own encodings, their mutations, short strings
         msgs = [(bytes(m), "corpus") for m in corpus_msgs.get(i, [])]
         for e in c.encs:
@@ -294,4 +300,29 @@ def corpus_descs():
                      cc.param("p1", dict(k="value", dop=dop, dflt=None)),
                      cc.param("p2", dict(k="value", dop=u8(), dflt=None))], False,
                     [{"p1": v, "p2": 7} for v in vals]))
+    # LINEAR compu methods with an offset *and* a denominator other than 1 (physical = (off + num * x) / den), unsigned and
+    # signed objects: every physical value which is the exact image of an internal value
+    from fractions import Fraction
+    for off, num, den in ((-10, 2, 4), (3, -3, 2), (100, 5, 4), (7, 4, -2)):
+        for bt, en, xs in ((cc.BUINT, None, range(0, 256, 5)), (cc.BINT, 4, range(-128, 128, 7))):
+            dop = cc.simple(cc.std(bt, 8, en), cc.linear(off, num, den))
+            vals = [Fraction(off + num * x, den) for x in xs]
+            vals = [int(v) for v in vals if v.denominator == 1]
+            out.append(([cc.param("sid", dict(k="coded", dct=cc.std(cc.BUINT, 8), v=0x2F)),
+                         cc.param("p1", dict(k="value", dop=dop, dflt=None))], False, [{"p1": v} for v in vals]))
+    # UTF-16 strings with characters outside the basic plane (two code units each) in objects whose length is written
+    # to the PDU or derived from the value: the length counts bytes of the encoding, not characters
+    uni_vals = ["a\U0001F600b", "\U0001F600", "\U00010000\U0010FFFF", "ab", ""]
+    for dct in (cc.leading(cc.BUNI, 8), cc.leading(cc.BUNI, 16, None, False), cc.minmax(cc.BUNI, 0, None, 0),
+                cc.minmax(cc.BUNI, 0, 12, 2)):
+        last = dct["k"] == "minmax" and dct["term"] == 2
+        ps = [cc.param("sid", dict(k="coded", dct=cc.std(cc.BUINT, 8), v=0x2E)),
+              cc.param("txt", dict(k="value", dop=cc.simple(dct), dflt=None))]
+        if not last:
+            ps.append(cc.param("tail", dict(k="value", dop=u8(), dflt=None)))
+        out.append((ps, False, [dict(txt=v, **({} if last else {"tail": 0x5A})) for v in uni_vals]))
+    out.append(([cc.param("len", dict(k="lenkey", dop=cc.simple(cc.std(cc.BUINT, 8)))),
+                 cc.param("txt", dict(k="value", dop=cc.simple(cc.paramlen(cc.BUNI, "len")), dflt=None)),
+                 cc.param("tail", dict(k="value", dop=u8(), dflt=None))], False,
+                [dict(txt=v, tail=0x5A) for v in uni_vals]))
     return out
